@@ -516,6 +516,35 @@ def shared_parameters_object(ctx):
                 ctx.violation('the caller\'s RecordingParameters object was modified by a registration', dict(w, before=repr(before), after=repr(vars(defaults))))
 
 
+def failing_abort(ctx):
+    """The cassette fails while it is asked to abort a discarded recording (its connection is down): an explicit discard still wins -
+    the recording is not kept, whatever rate and forcing say, and no draw is consumed for it."""
+    idx = 0
+    for rate, forcing, draw, step in itertools.product([0, 0.3, 1, 1.7], ['none', 'op'], [0.1], [1, 2, 3]):
+        idx += 1
+        if not ctx.mine(idx):
+            continue
+        faults = {('main', step): 'discard'}
+        if forcing == 'op' and step != 1:
+            faults[('main', 1)] = 'force'
+        from playback.tape_recorder import TapeRecorder
+        from vlib.spies import SpyRandom
+        with open_box('memory') as box:
+            spy = SpyCassette(box.cassette)
+            spy.fail_aborts = True
+            rec = TapeRecorder(spy)
+            rec._random = SpyRandom(5)
+            rec.enable_recording()
+            res = fr.execute(table_prog('return'), faults, rate=rate, scripted_draws=[draw], recorder=rec, spy=spy, box=box, with_twin=False)
+            row = {'failing_abort': True, 'rate': rate, 'forced': ('main', 1) in faults and faults[('main', 1)] == 'force', 'discard_at_step': step}
+            ctx.case(row)
+            got = observe(res)
+            ctx.count('decisions_with_a_failing_abort')
+            if got != 'abort' or res.draws:
+                ctx.violation('a discarded recording whose abort failed in the cassette was decided %r (draws consumed: %d); an explicit discard always wins' % (got, len(res.draws)),
+                              {'row': row})
+
+
 def redundant_enable(ctx):
     """enable_recording() called again while it is already enabled and an operation is in flight (a settings sync that becomes due
     mid-request): an idempotent call, the decision for the operation in flight is what the policy says."""
@@ -754,6 +783,7 @@ def run(ctx):
     if ctx.shard == 0:
         shared_parameters_object(ctx)
     redundant_enable(ctx)
+    failing_abort(ctx)
     explicit_scopes(ctx)
     histories(ctx)
     if ctx.shard == 0:
@@ -768,6 +798,8 @@ def run(ctx):
 
 
 def replay(ctx, w):
+    if isinstance(w.get('row'), dict) and w['row'].get('failing_abort'):
+        return failing_abort(ctx)
     if w.get('shared_parameters_object'):
         return shared_parameters_object(ctx)
     if isinstance(w.get('row'), dict) and 'redundant_enable_at_step' in w['row']:
